@@ -104,6 +104,7 @@ def run(ctx):
         import elemkeep
         ctx.rule('ELEMKEEP', 'batch de-duplication hands every input vertex on or drops it behind a duplicate verdict')
         elemkeep.check(ctx, cfg, prog, ctx.mod(cfg), 'ELEMKEEP')
+        elemkeep.check_orderings(ctx, cfg, prog, ctx.mod(cfg), 'ELEMKEEP')
     ctx.note('TopologyGuarantee::Pseudomanifold has no Level-3 gate at completion (relies on ValidationPolicy::DebugOnly, '
              'i.e. nothing in release): observation, not a rule')
     return ctx.finish(EXPLANATION)
